@@ -8,6 +8,7 @@ import O2P.Lemmas.MissingAndAll
 import O2P.Lemmas.FilterDefunctAll
 import O2P.Lemmas.Bridge
 import O2P.Lemmas.RawSound
+import O2P.Lemmas.SemPerm
 /-!
 # C06 — gate inference explains all observed successor sets; exact without mixed OR
 The quantifier of C06 is finite and is enumerated by `domain`: `domain_counts` (kernel-checked) gives
@@ -244,6 +245,13 @@ theorem post_process_checked (F : List (List String)) (t : PTree) (h : hypsB F t
 example : hypsB [["c"], ["c", "d"], ["c", "d", "a"]]
     (.node .and [.leaf "c", .node .xor [.tau, .node .and [.leaf "d", .node .xor [.tau, .leaf "a"]]]]) = true := by
   decide +kernel
+
+/-- **the order of children does not matter**: a node produces the same sets whatever the order of its children.  The
+correspondence run compares the real post-processing with the model's outcomes up to the order of children (the cover
+is a Python set, its iteration order depends on the hash seed); this is why that canonicalisation loses nothing. -/
+theorem children_order_irrelevant (op : POp) (cs cs' : List PTree) (h : cs.Perm cs') (s : List String) :
+    (PTree.node op cs).sem s ↔ (PTree.node op cs').sem s :=
+  ⟨sem_perm op h s, sem_perm op h.symm s⟩
 
 /-- … and the defunct-OR filter alone, for any tree with distinct names -/
 theorem filter_defunct_sound (F : List (List String)) (hF : ∀ s0 ∈ F, "" ∉ s0) (fuel : Nat) (t : PTree)
